@@ -149,3 +149,66 @@ def self_check_progs(ctx, cases):
             raise ToolError("renderer self-check failed for a statement program:\n" + q["src"] + "\n" + json.dumps(real)[:1500] +
                             "\n" + json.dumps(want)[:1500])
     return rejects
+
+
+DATA_DECLS = """model P{N}:
+    x: int
+    y: int
+
+model Q{N}:
+    p: P{N}
+    z: int
+
+enum Shape{N}:
+    Dot
+    Circle(int)
+    Rect(int, int)
+
+def h{N}(a: int) -> int:
+    println(a)
+    return a + 1
+
+def safe_div{N}(a: int, b: int) -> Result[int, str]:
+    if b == 0:
+        return Err("bad")
+    return Ok(a // b)
+
+def maybe{N}(a: int) -> Option[int]:
+    if a <= 0:
+        return None
+    return Some(a)
+
+def twice{N}(a: int, b: int) -> Result[int, str]:
+    let q = safe_div{N}(a, b)?
+    println(q)
+    return Ok(q * 2)
+"""
+
+
+def data_case(row, k, prefix="d"):
+    """GenData row -> e2e case"""
+    body = []
+    for s in row["body"]:
+        body += [_re.sub(r"\b(h|safe_div|twice|maybe)\(", r"\1{N}(", l) for l in render.render_stmt(s, 0)]
+    return {"id": f"{prefix}{k}", "decls": DATA_DECLS, "body": body, "aborts": row["status"] == "error",
+            "expect": {"out": row["out"], "status": row["status"], "err": row["err"]},
+            "tags": row.get("feats", []), "ast": row["body"], "kind": "data"}
+
+
+def self_check_data(ctx, cases):
+    def strip(t):
+        return t.replace("{N}", "")
+    reqs = [{"op": "parse", "src": "def main() -> None:\n" + "".join("    " + strip(l) + "\n" for l in c["body"])} for c in cases]
+    outs = common.replay_batch(reqs, timeout=1800)
+    rejects = {}
+    for c, q, o in zip(cases, reqs, outs):
+        ob = o.get("obs", {})
+        if not ob.get("ok"):
+            rejects[c["id"]] = ob.get("err") or ob
+            continue
+        real = render.norm_real(ob["ast"]["decls"][0]["body"])
+        want = render.to_project_block(c["ast"])
+        if real != want:
+            raise ToolError("renderer self-check failed for a data program:\n" + q["src"] + "\n" + json.dumps(real)[:2500] +
+                            "\n" + json.dumps(want)[:2500])
+    return rejects
